@@ -15,7 +15,12 @@ RULE = ('corpus first; data lines include nicknames that begin with / equal / co
         'delay {0,1,100,101} empty reads before every reply line x {no fault, one fault of every kind at every '
         'write / before, inside, instead of, after every reply line, error line}; every 3-request sequence without '
         'fault; random 3-request sequences with a fault; random longer histories (4-12 calls, several faults, junk '
-        'already queued, missing port / text, verbose flag, out-of-alphabet bytes), half of them run pairwise interleaved on two port objects.  A case is one call of one '
+        'already queued, missing port / text, verbose flag, out-of-alphabet bytes), half of them run pairwise interleaved on two port objects; '
+        'request texts with unusual but valid ASCII (free text of ST and of query parameters, the name itself, no terminator: '
+        'braces and str.format fields, % directives, backslashes, quotes, shell / regex characters), also in data lines, error '
+        'lines and wrong replies: 14 edge payloads x kind x 2 templates x delay x {no fault, write fault, one fault of every '
+        'kind at every position, 7 error lines and 8-9 wrong lines in place of every reply line, silence}, at 99/100/101 empty '
+        'reads, random payloads in 1-3 call sequences at every position and inside the longer histories.  A case is one call of one '
         'history; non-trivial = the call had a port and a text; distinct by (history, position)')
 TRUSTED = ['translator/pyio2lean.py + lean/Plotink/PyIO.lean (Python I/O subset -> Lean; validated on every run by executing '
            'the regenerated Gen.ebb_serial_query/command on all histories of this module against the real code: value, '
@@ -49,7 +54,8 @@ ERRLINE = b'!8 Err: Unknown command\r\n'
 # any case, an empty nickname (the data line is only the terminator) and blank-ish payloads are all
 # legitimate data lines of a conforming board.
 NICKS = ['a1b2', 'AxiDraw 7', 'OK Corral', 'OKAY', 'OK', 'Ok', 'ok', 'okay then', 'Plotter-OK', ' OK go', 'OK\t1',
-         'OKOK', 'O', 'K', 'Err', '', ' ', '0']
+         'OKOK', 'O', 'K', 'Err', '', ' ', '0',
+         '{lab} plotter', '{0}', '%s 100%', 'a\\b "c" \'d\'']
 Q2 = [('QS\r', b'1200,-340\r\n'), ('QB\r', b'0\r\n'), ('QP\r', b'1\r\n'),
       ('QC\r', b'0394,0300\r\n'), ('QN\r', b'7\r\n'), ('QE\r', b'0,0\r\n'), ('QL\r', b'3\r\n'),
       ('ES\r', b'0,0,0,0,0\r\n'), ('QR\r', b'1\r\n'), ('QB\r', b'1\r\n'), ('QS\r', b'0,0\r\n'),
@@ -65,6 +71,14 @@ CM = [('EM,1,1\r', None), ('SP,1\r', None), ('SM,100,10,-10\r', None), ('RB\r', 
 KIND = {t: 'q2' for t, _ in Q2}
 KIND.update({t: 'q1' for t, _ in Q1})
 KIND.update({t: 'c' for t, _ in CM})
+
+
+
+def kind_of(call):
+    """'q2' | 'q1' | 'c' | None for a call: the kind recorded in the call by the generator (texts built at run time),
+    else the request table"""
+    return call.get('k') or KIND.get(call['cmd'])
+
 
 EXC_NAMES = ['SerialException', 'OSError', 'SerialTimeoutException', 'IOError', 'PortNotOpenError']
 
@@ -398,7 +412,7 @@ def judge(ctx, hist, obs, port):
         kindname = 'query' if call['kind'] == 'q' else 'command'
         history_conforming, board_ok = board_ok, False     # re-established at the end of this iteration
         if history_conforming and call['port'] and call['cmd'] not in (None, '') and o['exc'] is None \
-                and o['wok'] and KIND.get(call['cmd']) is not None and conforming(KIND[call['cmd']], call['reply']):
+                and o['wok'] and kind_of(call) is not None and conforming(kind_of(call), call['reply']):
             board_ok = True
             if call['kind'] == 'q' and o['qbefore'] != 0:
                 own = first_line(call['reply'], DOC_RETRY + 1)[0]
@@ -435,7 +449,7 @@ def judge(ctx, hist, obs, port):
                 ctx.violate('query did not return text (str)', inp, f'{type(o["value"]).__name__}: {o["value"]!r}', 'a str')
                 continue
         aligned_before = o['qbefore'] == 0
-        kind = KIND.get(call['cmd'])
+        kind = kind_of(call)
         if not aligned_before or kind is None:
             continue
         reply = call['reply']
@@ -628,6 +642,13 @@ def gen_random(ctx):
                 calls.append({'kind': rng.choice('qc'), 'port': False, 'cmd': None, 'reply': [], 'verbose': False})
             elif r < 0.10:
                 calls.append({'kind': rng.choice('qc'), 'port': True, 'cmd': '', 'reply': rng.choice([[], [L(OK)], rep]), 'verbose': True})
+            elif r < 0.22:     # a request text with unusual characters (free text, format-like fragments)
+                payload = odd_payload(rng)
+                k, t = odd_text(rng, 'c' if k == 'c' else rng.choice(['c', 'q1', 'q2']), payload)
+                rep = base_reply(k, None if k == 'c' else odd_data(rng, k, t, payload), dl)
+                if rng.random() < max(p_fault, 0.3):
+                    rep = rng.choice(odd_fault_replies(rng, k, t, payload, rep, rng.choice(EXC_NAMES), full=True))
+                calls.append(mk_odd_call(k, t, rep, verbose=rng.random() < 0.7))
             else:
                 calls.append(mk_call(t, rep, verbose=rng.random() < 0.7))
         w = ''.join('x' if rng.random() < p_fault / 2 else 'o' for _ in range(n))
@@ -642,6 +663,159 @@ def gen_random(ctx):
             elif c['cmd']:
                 c['cmd'] = 'Q\xe9\r'
         yield hist
+
+
+# ---- request texts (and lines) with unusual but valid ASCII characters -----------------------------------------
+# The statement quantifies over all request texts; ST (set nickname) carries free user text, and whatever the host
+# passes is written and - on a fault - quoted in a log message.  Characters that mean something to str.format,
+# %-formatting, escapes, quoting, shells and regular expressions must make no difference.
+FRAG_FORMAT = ['{', '}', '{}', '{0}', '{1}', '{0}{1}', '{lab}', '{0!r}', '{:>8}', '{0.x}', '{0[1]}', '{{', '}}', '{{}}',
+               '}{', '{cmd}', '{response}', '{ }']
+FRAG_PERCENT = ['%', '%s', '%d', '%r', '%(cmd)s', '%%', '%5.2f', '100%', '%s%s', '%(', '%c']
+FRAG_ESCAPE = ['\\', '\\n', '\\r', '\\x41', '\\u0041', '\\\\', '"', "'", '`', '$', '${x}', '$(x)', "'\"", '\\N{DASH}']
+FRAG_MISC = ['\t', ' ', ',', ',,', ';', ':', '*', '?', '[', ']', '(', ')', '(?', '<', '>', '&', '|', '#', '~', '^',
+             '\x7f', '=', '+', '!', '@', 'Err:', 'OK']
+FRAG_PLAIN = ['AxiDraw 7', 'lab', 'unit', 'plotter', '3', 'B', 'x', '0', 'Mini Kit']
+FRAG_CLASSES = [FRAG_FORMAT, FRAG_PERCENT, FRAG_ESCAPE, FRAG_MISC, FRAG_PLAIN]
+# the small set every structured stream goes through (one of each mechanism, alone and inside plain text)
+EDGE_PAYLOADS = ['{lab} plotter', 'unit}3', '{0}{1}', '{', '{}', '{0}', '%s', '100%', '%(cmd)s', 'a\\b', '"q" \'q\'', '{{x}}',
+                 '$x `y`', 'Err: {0} %s']
+# request templates by kind: free text after the name, the name itself unusual, no terminator
+ODD_TEMPLATES = {'c': ['ST,%s\r', 'ST,%s', '%s\r', 'SM,%s,10\r', 'st, %s \r'],
+                 'q1': ['PI,%s,3\r', 'MR,%s\r', 'v,%s\r', 'pi,%s'],
+                 'q2': ['QT,%s\r', 'QU,%s\r', '%s\r', 'QN,%s']}
+
+
+def query_kind(text):
+    """ordinary or no-OK query, by the request's name (first comma-separated field, case and blanks ignored) as
+    the statement lists them"""
+    return 'q1' if text.split(',')[0].strip().lower() in DOC_NO_OK else 'q2'
+
+
+def odd_payload(rng):
+    n = rng.choice([1, 1, 2, 2, 3, 4])
+    out = ''
+    for _ in range(n):
+        out += rng.choice(rng.choice(FRAG_CLASSES) if rng.random() < 0.6 else rng.choice(FRAG_CLASSES[:3]))
+    return out
+
+
+def odd_text(rng, kind, payload):
+    tm = ODD_TEMPLATES[kind]
+    t = (tm[0] if rng.random() < 0.4 else rng.choice(tm)) % (payload,)
+    if kind != 'c':
+        kind = query_kind(t)
+    return kind, t
+
+
+def odd_data(rng, kind, text, payload):
+    """the data line a board sends to this request: what QT reads back is the free text that ST stored"""
+    r = rng.random()
+    if kind == 'q1':
+        name = text.split(',')[0].strip().upper()
+        return ((name + ',' + (payload if r < 0.5 else '1')) + '\r\n').encode('ascii')
+    if r < 0.5:
+        return (payload.replace('\r', ' ').replace('\n', ' ') + '\r\n').encode('ascii') if payload.strip() else b'0\r\n'
+    return rng.choice([b'1\r\n', b'0,0\r\n', b'AxiDraw 7\r\n'])
+
+
+def odd_errlines(rng, text, payload):
+    """error / unexpected lines a legacy board (or something else on the line) answers with: the firmware quotes
+    the offending text"""
+    body = text.strip()
+    quoted = body.replace('\r', ' ').replace('\n', ' ')
+    return [ERRLINE,
+            ("!8 Err: Unknown command '" + quoted[:2] + ":" + str(len(quoted)) + "'\r\n").encode('ascii'),
+            ("!8 Err: Unknown command '" + quoted + "'\r\n").encode('ascii'),
+            ("!5 Err: Parameter outside allowed range " + payload.replace('\r', ' ').replace('\n', ' ') + "\r\n").encode('ascii'),
+            b'!0 Err: {0} {1} %s %d {cmd}\r\n', b'Err:\r\n', b'!Err: {\r\n']
+
+
+def odd_wrong_lines(rng, kind, text, payload):
+    """a reply that is not the one of this request and not an error line"""
+    echo = (text.strip().replace('\r', ' ').replace('\n', ' ') + '\r\n').encode('ascii')
+    out = [b'1\r\n', echo, b'{0}\r\n', b'%s\r\n', b'KO\r\n', b'O\r\n', b' \r\n', b'NOK {x}\r\n']
+    if kind != 'c':
+        out.append(OK)
+    return out
+
+
+def mk_odd_call(kind, text, reply, verbose=True):
+    return {'kind': 'c' if kind == 'c' else 'q', 'k': kind, 'port': True, 'cmd': text, 'reply': reply, 'verbose': verbose}
+
+
+def odd_fault_replies(rng, kind, text, payload, rep, exc, full):
+    """every way the reply to this request can go wrong: one fault at every position (exception before / inside /
+    instead of / after every line, the line missing, unterminated), every error line and every wrong line in place of
+    every reply line, and silence.  full=False: a sample"""
+    out = list(fault_variants(rep, exc))
+    idx = [i for i, t in enumerate(rep) if t[0] == 'l']
+    subs = odd_errlines(rng, text, payload) + odd_wrong_lines(rng, kind, text, payload)
+    for li in idx:
+        for ln in subs:
+            out.append(rep[:li] + [L(ln)] + rep[li + 1:])
+            if li == idx[0]:
+                out.append(rep[:li] + [L(ln)])                  # ... and nothing after it
+    out.append([])                                              # silence
+    out.append([['e', rep[0][1]], L(ERRLINE), L(OK)])           # error line, then OK at once
+    if not full:
+        out = rng.sample(out, min(len(out), 6))
+    return out
+
+
+def gen_odd_text(ctx):
+    rng = ctx.rng
+    tables = {'q2': Q2, 'q1': Q1, 'c': CM}
+    cnt = itertools.count()
+    # --- structured: every edge payload x every kind x (first template, one more) x delays x every fault, single calls
+    for payload in EDGE_PAYLOADS:
+        for kind0 in ('c', 'q1', 'q2'):
+            tmpls = [ODD_TEMPLATES[kind0][0], ODD_TEMPLATES[kind0][1 + next(cnt) % (len(ODD_TEMPLATES[kind0]) - 1)]]
+            for tm in tmpls:
+                text = tm % (payload,)
+                kind = kind0 if kind0 == 'c' else query_kind(text)
+                data = None if kind == 'c' else odd_data(rng, kind, text, payload)
+                for d in (0, 2):
+                    rep = base_reply(kind, data, (d, [0, 1, 3][next(cnt) % 3]))
+                    exc = EXC_NAMES[next(cnt) % len(EXC_NAMES)]
+                    yield {'pre': [], 'w': '', 'calls': [mk_odd_call(kind, text, rep, verbose=bool(next(cnt) % 2))]}
+                    yield {'pre': [], 'w': 'x', 'wexc': exc, 'calls': [mk_odd_call(kind, text, rep, verbose=bool(next(cnt) % 2))]}
+                    for fr in odd_fault_replies(rng, kind, text, payload, rep, exc, full=(d == 0 or tm is tmpls[0])):
+                        yield {'pre': [], 'w': '', 'calls': [mk_odd_call(kind, text, fr, verbose=bool(next(cnt) % 2))]}
+    # --- the slow end of the retry window with the edge payloads: error line after 99 / 100 / 101 empty reads
+    for payload in EDGE_PAYLOADS:
+        for kind0 in ('c', 'q1', 'q2'):
+            text = ODD_TEMPLATES[kind0][0] % (payload,)
+            kind = kind0 if kind0 == 'c' else query_kind(text)
+            for d in (99, 100, 101):
+                ln = odd_errlines(rng, text, payload)[next(cnt) % 4]
+                yield {'pre': [], 'w': '', 'calls': [mk_odd_call(kind, text, [['e', d], L(ln)], verbose=bool(next(cnt) % 2))]}
+    # --- random payloads, in sequences of 1-3 calls: the unusual request at every position among ordinary ones,
+    #     the fault on it or on a neighbour; the same unusual text twice with different outcomes
+    for _ in range(ctx.n(1500)):
+        n = rng.choice([1, 1, 2, 3, 3])
+        j = rng.randrange(n)
+        calls = []
+        payload = odd_payload(rng)
+        for i in range(n):
+            if i == j or rng.random() < 0.25:
+                kind, text = odd_text(rng, rng.choice(['c', 'c', 'q1', 'q2']), payload if rng.random() < 0.7 else odd_payload(rng))
+                data = None if kind == 'c' else odd_data(rng, kind, text, payload)
+                rep = base_reply(kind, data, (rng.choice(RDELAYS), rng.choice(RDELAYS)))
+                if rng.random() < (0.85 if i == j else 0.3):
+                    rep = rng.choice(odd_fault_replies(rng, kind, text, payload, rep, rng.choice(EXC_NAMES), full=True))
+                calls.append(mk_odd_call(kind, text, rep, verbose=rng.random() < 0.5))
+            else:
+                k = rng.choice(['q2', 'q1', 'c'])
+                t, x = rng.choice(tables[k])
+                rep = base_reply(k, x, (rng.choice(RDELAYS), rng.choice(RDELAYS)))
+                if rng.random() < 0.3:
+                    rep = rng.choice(fault_variants(rep, rng.choice(EXC_NAMES)))
+                calls.append(mk_call(t, rep, verbose=rng.random() < 0.5))
+        w = ''
+        if rng.random() < 0.1:
+            w = 'o' * rng.randrange(n) + 'x'
+        yield {'pre': [], 'w': w, 'wexc': rng.choice(EXC_NAMES), 'calls': calls}
 
 
 def load_corpus(ctx):
@@ -701,6 +875,8 @@ def run(ctx):
     def histories():
         for h in load_corpus(ctx):
             yield 'corpus', h
+        for h in gen_odd_text(ctx):
+            yield 'odd', h
         for h in gen_exhaustive(ctx):
             yield 'exh', h
         for h in gen_random(ctx):
